@@ -48,6 +48,22 @@ ASSUMPTIONS = [
 ]
 
 
+def _batch(driver, reqs, limit=30000):
+    """driver.batch in chunks whose request text stays below the pipe buffer size (a chunk of
+    large array messages would otherwise block both pipes)"""
+    out, chunk, size = [], [], 0
+    for r in reqs:
+        n = len(json.dumps(r, separators=(",", ":")))
+        if chunk and size + n > limit:
+            out += driver.batch(chunk)
+            chunk, size = [], 0
+        chunk.append(r)
+        size += n
+    if chunk:
+        out += driver.batch(chunk)
+    return out
+
+
 def run(ctx):
     from harness import msgs as H
     from harness import codec as HC
@@ -64,12 +80,12 @@ def run(ctx):
 
     # ---------------------------------------------------------------- valid messages
     msgs = []  # (direction, model-json, tag)
-    for mj in H.fixed_cases(rng, 40 if thorough else 6, 400 if thorough else 40):
+    for mj in H.fixed_cases(rng, 40 if thorough else 12, 400 if thorough else 150):
         msgs.append((H.direction_of(mj["c"]), mj, "fixed:" + mj["c"]))
     # the witness of (fixed) F18 first among the arrays
     msgs.append(("ret", {"k": "arr", "a": 5, "v": [1, None, 0, None, -5]}, "arr:F18-witness"))
     lens = [0, 1, 2, 3, 4, 5, 7, 8, 16, 33, 100, 300]
-    n_arr = 1500 if thorough else 150
+    n_arr = 1500 if thorough else 500
     for k in range(n_arr):
         n = lens[k % len(lens)] if k < 4 * len(lens) else rng.randrange(0, 2000 if thorough else 200)
         mj, mode = H.array_case(rng, n)
@@ -87,14 +103,14 @@ def run(ctx):
         msgs.append(("host", {"k": "sub", "b": [rng.randrange(256) for _ in range(rng.randrange(30))]},
                      "sub:opaque"))
 
-    ser = ctx.driver.batch([{"op": "msg.ser", "m": mj} for _, mj, _ in msgs])
+    ser = _batch(ctx.driver, [{"op": "msg.ser", "m": mj} for _, mj, _ in msgs])
     valid_bytes = []
     des_reqs = []
     for (direction, mj, tag), ms in zip(msgs, ser):
         rb, exc = H.real_serialize(mj)
         valid_bytes.append(rb)
         des_reqs.append({"op": "msg.deshost" if direction == "host" else "msg.desret", "b": rb or []})
-    des = ctx.driver.batch(des_reqs)
+    des = _batch(ctx.driver, des_reqs)
     for (direction, mj, tag), ms, rb, md in zip(msgs, ser, valid_bytes, des):
         res.evaluations += 1
         res.count(tag)
@@ -138,7 +154,7 @@ def run(ctx):
         conn.flush()
         q.measure()
     sdk_raw = [list(r) for r in conn.storage]
-    sd = ctx.driver.batch([{"op": "msg.deshost", "b": r} for r in sdk_raw])
+    sd = _batch(ctx.driver, [{"op": "msg.deshost", "b": r} for r in sdk_raw])
     for r, md in zip(sdk_raw, sd):
         res.evaluations += 1
         res.count("sdk-produced")
@@ -168,7 +184,7 @@ def run(ctx):
             mal.append((direction, [rng.randrange(5, 256)] + rb[1:], "unknown-type"))
             other = "ret" if direction == "host" else "host"
             mal.append((other, rb, "other-direction"))
-    for _ in range(400 if thorough else 60):  # arrays with bad tags / lengths
+    for _ in range(1500 if thorough else 400):  # arrays with bad tags / lengths
         n = rng.randrange(0, 6)
         body = []
         for _k in range(n):
@@ -180,13 +196,13 @@ def run(ctx):
         if rng.random() < 0.2:
             raw = raw[:rng.randrange(len(raw) + 1)]
         mal.append(("ret", raw, "array-tags-lengths"))
-    for _ in range(2000 if thorough else 200):
+    for _ in range(6000 if thorough else 1500):
         ln = rng.choice([0, 1, 2, 7, 8, 9, 12, 16, 17, 24, 25, rng.randrange(40)])
         raw = [rng.randrange(256) for _ in range(ln)]
         if raw and rng.random() < 0.7:
             raw[0] = rng.randrange(5)
         mal.append((rng.choice(["host", "ret"]), raw, "random-bytes"))
-    mo = ctx.driver.batch([{"op": "msg.deshost" if d == "host" else "msg.desret", "b": b} for d, b, _ in mal])
+    mo = _batch(ctx.driver, [{"op": "msg.deshost" if d == "host" else "msg.desret", "b": b} for d, b, _ in mal])
     for (direction, raw, tag), md in zip(mal, mo):
         res.evaluations += 1
         rd = H.real_deserialize(direction, raw)
